@@ -151,6 +151,15 @@ def plan(seed, n_classes, max_points, all_points=False):
              not any('broken' in r for r in IMPL['complex_types'][c.TYPE.__name__]['rows']) and
              IMPL['complex_types'][c.TYPE.__name__]['rows']]
     rnd.shuffle(cands)
+    # half of the classes: types with a required attribute (their workloads often omit it: the expected outcome is an exception)
+    req = [c for c in cands if any(r.get('required') for r in IMPL['complex_types'][getattr(XE, c).TYPE.__name__]['rows'])]
+    mixed = []
+    for i in range(len(cands)):
+        if i % 2 == 0 and req:
+            mixed.append(req.pop(0))
+        mixed.append(cands[i])
+    seen = set()
+    cands = [c for c in mixed if not (c in seen or seen.add(c))]
     jobs = []
     for cls_a in cands[:n_classes]:
         va = rnd.randint(0, 5)
@@ -159,11 +168,22 @@ def plan(seed, n_classes, max_points, all_points=False):
             continue
         events = ev[1][0]
         n = len(events)
-        lazy = [i for i, e in enumerate(events) if e[2] in ('get_xsd_attributes', '_fill_xsd_tree', 'get_xsd_tree', '__init__', 'value_', '_check_attribute', 'type_', '_populate_permitted')]
+        LAZY_FN = ('get_xsd_attributes', '_fill_xsd_tree', 'get_xsd_tree', '__init__', 'value_', '_check_attribute', 'type_',
+                   '_populate_permitted', 'is_required', 'name', 'ref', 'xsd_tree', '_check_required_attributes', '_populate_pattern',
+                   '_populate_forced_permitted')
+        visits = {}
+        lazy = []
+        for i, e in enumerate(events):
+            # every line of the attribute-table modules (first visits), and the lazily caching functions elsewhere
+            if e[0] in ('xsdattribute.py', 'xsdcomplextype.py') or e[2] in LAZY_FN:
+                visits[(e[0], e[1])] = visits.get((e[0], e[1]), 0) + 1
+                if visits[(e[0], e[1])] <= 2:
+                    lazy.append(i)
         if all_points:
             ks = list(range(n))
         else:
-            ks = sorted(set(lazy[:max_points // 2] + [int(i * n / max(1, max_points // 2)) for i in range(max_points // 2)]))
+            rnd.shuffle(lazy)
+            ks = sorted(set(lazy[:max_points * 3 // 4] + [int(i * n / max(1, max_points // 4)) for i in range(max_points // 4)]))
         # B: the same class with another value (shared tables of the same type), and a different class
         for cls_b, vb in ((cls_a, va + 1), (rnd.choice(cands), rnd.randint(0, 5))):
             jobs.append((cls_a, cls_b, va, vb, ks))
